@@ -9,14 +9,20 @@ package vm
 //@   requires l != nil
 //@   ensures result == llen[l]
 
-// listHolds(t, pg, n): t's list is exactly pg[0..n) in order (each element a fresh, well-placed box of the page).
-//@ pred listHolds(t, pg, n) = llen[t.entries] == n && (forall k in 0..n :: elemAt(t, k) != nil && fresh(elemAt(t, k)) && elemAt(t, k) <= allocTop && lown[elemAt(t, k)] == t.entries && lpos[elemAt(t, k)] == k && hastype(elemAt(t, k).Value, "Page") && ifaceval(elemAt(t, k).Value) <= allocTop && pageOf(elemAt(t, k)) == pg[k])
+// listHolds(t, pg, n): t's list is exactly pg[0..n) in order: n well-placed fresh elements, the k-th holding page pg[k]
+// (field by field: Page values are compared as structs).
+//@ pred listHolds(t, pg, n) = llen[t.entries] == n && n >= 0
+//@   && (forall k int :: 0 <= k && k < n ==> elemAt(t, k) != nil && fresh(elemAt(t, k)) && elemAt(t, k) <= allocTop && lown[elemAt(t, k)] == t.entries && lpos[elemAt(t, k)] == k && hastype(elemAt(t, k).Value, "Page") && ifaceval(elemAt(t, k).Value) <= allocTop)
+//@   && (forall k in 0..n :: pageOf(elemAt(t, k)) == pg[k])
 // mapPoints(t): every map entry points at an element of t's list that holds a page with that VAddr.
 //@ pred mapPoints(t) = forall v uint64 :: v in t.entriesTable ==> t.entriesTable[v] != nil && t.entriesTable[v] <= allocTop && lown[t.entriesTable[v]] == t.entries && 0 <= lpos[t.entriesTable[v]] && lpos[t.entriesTable[v]] < llen[t.entries] && lseq[t.entries][lpos[t.entriesTable[v]]] == t.entriesTable[v] && hastype(t.entriesTable[v].Value, "Page") && ifaceval(t.entriesTable[v].Value) <= allocTop && pageOf(t.entriesTable[v]).VAddr == v
-// mapCovers(t, pg, n): every page's VAddr is a key; it points at the LAST page with that VAddr (a later duplicate replaces the map entry, the list keeps both).
-//@ pred mapCovers(t, pg, n) = forall k in 0..n :: (pg[k].VAddr in t.entriesTable) && ((forall k2 in k + 1..n :: pg[k2].VAddr != pg[k].VAddr) ==> t.entriesTable[pg[k].VAddr] == elemAt(t, k))
+// mapCovers(t, n): the VAddr of every listed page is a key, and the key points at the LAST listed page with that VAddr
+// (a later duplicate replaces the map entry while the list keeps both elements).
+//@ pred mapCovers(t, n) = forall k int :: 0 <= k && k < n ==> (pageOf(elemAt(t, k)).VAddr in t.entriesTable) && ((forall k2 int :: k < k2 && k2 < n ==> pageOf(elemAt(t, k2)).VAddr != pageOf(elemAt(t, k)).VAddr) ==> t.entriesTable[pageOf(elemAt(t, k)).VAddr] == elemAt(t, k))
+// listClean(t, p): the listed pages have pairwise different VAddr and all carry PID p.
+//@ pred listClean(t, p) = forall k int :: 0 <= k && k < llen[t.entries] ==> pageOf(elemAt(t, k)).PID == p && (forall k2 int :: k < k2 && k2 < llen[t.entries] ==> pageOf(elemAt(t, k2)).VAddr != pageOf(elemAt(t, k)).VAddr)
 //@ pred tableShape(t) = t != nil && t.entries != nil && t.entriesTable != nil && fresh(t) && fresh(t.entries) && fresh(t.entriesTable) && t <= allocTop && t.entries <= allocTop && t.entriesTable <= allocTop
-//@ pred tableBuilt(t, pg, n) = tableShape(t) && listHolds(t, pg, n) && mapPoints(t) && mapCovers(t, pg, n)
+//@ pred tableBuilt(t, pg, n) = tableShape(t) && listHolds(t, pg, n) && mapPoints(t) && mapCovers(t, n)
 
 // builtUpTo(pt, tabs, src, n): pt.tables is what the first n entries of tabs build: its PIDs are exactly theirs, and the
 // table of PID p is built from the LAST entry with that PID (index src[p]; a later entry with the same PID replaces the table).
@@ -25,7 +31,7 @@ package vm
 //@   && (forall p uint32 :: p in pt.tables ==> tableShape(pt.tables[p]))
 //@   && (forall p uint32 :: p in pt.tables ==> listHolds(pt.tables[p], tabs[src[p]].Pages, len(tabs[src[p]].Pages)))
 //@   && (forall p uint32 :: p in pt.tables ==> mapPoints(pt.tables[p]))
-//@   && (forall p uint32 :: p in pt.tables ==> mapCovers(pt.tables[p], tabs[src[p]].Pages, len(tabs[src[p]].Pages)))
+//@   && (forall p uint32 :: p in pt.tables ==> mapCovers(pt.tables[p], llen[pt.tables[p].entries]))
 //@   && tablesSep(pt)
 //@ pred oldLists() = forall k int :: k <= old(allocTop) ==> llen[k] == old(llen)[k] && lseq[k] == old(lseq)[k] && lown[k] == old(lown)[k] && lpos[k] == old(lpos)[k]
 //@ pred apartFrom(pt, table) = forall p uint32 :: p in pt.tables ==> pt.tables[p] != table && pt.tables[p].entries != table.entries && pt.tables[p].entriesTable != table.entriesTable
@@ -54,24 +60,10 @@ package vm
 //@   label C26.load.preexisting
 //@   ensures oldLists()
 //@   label C26.load.wf
-//@   ensures result == nil && dtoClean(dto.Tables) ==> tablesWF(pt)
+//@   ensures result == nil && (forall p uint32 :: p in pt.tables ==> listClean(pt.tables[p], p)) ==> tablesWF(pt)
+//@   label C26.load.clean
+//@   ensures result == nil && dtoClean(dto.Tables) ==> (forall p uint32 :: p in pt.tables ==> listClean(pt.tables[p], p))
 //@   assigns pt.tables, llen, lseq, lown, lpos, ckptSrc
-//@   loop 0: ghost llen = llen
-//@   loop 0: backedge llen = llen
-//@   loop 0: ghost lseq = lseq
-//@   loop 0: backedge lseq = lseq
-//@   loop 0: ghost lown = lown
-//@   loop 0: backedge lown = lown
-//@   loop 0: ghost lpos = lpos
-//@   loop 0: backedge lpos = lpos
-//@   loop 1: ghost llen = llen
-//@   loop 1: backedge llen = llen
-//@   loop 1: ghost lseq = lseq
-//@   loop 1: backedge lseq = lseq
-//@   loop 1: ghost lown = lown
-//@   loop 1: backedge lown = lown
-//@   loop 1: ghost lpos = lpos
-//@   loop 1: backedge lpos = lpos
 //@   loop 0: ghost oi = -1
 //@   loop 0: backedge oi = oi + 1
 //@   loop 0: ghost ckptSrc = idperm
